@@ -1,0 +1,8 @@
+//go:build verif
+
+package json
+
+// Contracts for the JSON library (C19, C10). Comment-only file; read by /verif/znvc.
+// FN_parseJson / FN_generateJson are checked as refinements of runtime.FuncExecutor (no own contract needed).
+
+//@ globalinv jsonLIB nonnil
